@@ -128,6 +128,12 @@ def handleUnits (ws : List String) : String :=
       some (match cmp T c a b with | .ok r => s!"ok {showBool r}" | .error e => s!"err {e.toString}")).getD "bad-op"
   | ["to", a, u] => (do let a ← parseQty a; let u ← u.toNat?; some (showResQ (toCopy T a u))).getD "bad-op"
   | ["toi", a, u] => (do let a ← parseQty a; let u ← u.toNat?; some ("ok " ++ showQty (toInplace T a u))).getD "bad-op"
+  | ["col", k, u, samples] => (do
+      let k ← parseKind k; let u ← u.toNat?
+      let qs ← (splitNE samples ",").mapM fun (w : String) => match w.splitOn ":" with
+        | [v, su] => do some (⟨k, ← parseRat v, ← su.toNat?⟩ : Qty)
+        | _ => none
+      some ("ok " ++ ",".intercalate ((exportColumn T u qs).map (approxQ ·)))).getD "bad-op"
   | ["neg", a] => (do let a ← parseQty a; some (showResQ (neg a))).getD "bad-op"
   | ["abs", a] => (do let a ← parseQty a; some (showResQ (abs' a))).getD "bad-op"
   | _ => "bad-op"
